@@ -4,7 +4,7 @@ from props import matlab_scope as ms, pyprops
 PID = 'C10'
 KEYS = ['MatlabWrapper.wrap_enum', 'FormatMixin._format_class_name', 'FormatMixin._clean_class_name', 'collect_namespaces',
         'Namespace.full_namespaces', 'MatlabWrapper.get_class_name', 'CheckMixin._has_serialization',
-        'MatlabWrapper.generate_preamble']
+        'MatlabWrapper.generate_preamble', 'MatlabWrapper.wrap_properties_block']
 
 
 def replay(obj):
@@ -22,6 +22,6 @@ def run(rep, args):
     ms.run(rep, n, PID)
     pyprops.report_regressions(rep, pr)
     rep.bounded['rule'] = 'same scope; the generated file tree is compared with the declared entities: one classdef per non-ignored class instantiation in its +package path (base or handle, pointer property, constructor, delete, one method per distinct name, statics, get/set per property), one function file per free function name, one enumeration classdef per enum with 0..n-1 numbering (class-scoped enums under +Class), exactly one MEX source with one collector per class, clean-up entry and RTTI registration iff virtual'
-    rep.explanation = 'the enumeration classdef text (0..n-1 numbering in declared order) and the preamble of the MEX source (one collector and one clean-up block per non-ignored class, an RTTI entry exactly for the virtual ones) are proved; the rest of the toolbox contents are decided on the bounded scope by comparing the generated file tree with the entities declared by the reference semantics.'
+    rep.explanation = 'the enumeration classdef text (0..n-1 numbering in declared order) and the preamble of the MEX source (one collector and one clean-up block per non-ignored class, an RTTI entry exactly for the virtual ones) and the properties block of a classdef (pointer property, then one line per declared property in declared order) are proved; the rest of the toolbox contents are decided on the bounded scope by comparing the generated file tree with the entities declared by the reference semantics.'
     rep.assumptions += ['the abstract module is obtained through the real parser (C01 checks it separately)',
                         'MATLAB / MEX run-time semantics of the emitted text is not verified']
